@@ -29,31 +29,36 @@ TIE = ("T (conditions and effects of the finalizer block of process_resource_cau
        "and `decision` = their composition) + D (real finalizers.block_deletion/allow_deletion and Patch.as_json_patch on generated "
        "lists) + S (every cycle of whole-operator simulations: queued fns, JSON-patch outcome, carried fns)")
 LEVEL_TEXT = ("Lean theorems for ALL finalizer lists / fn sequences / decision inputs / label lists of the LTS (deletion requests, "
-              "label edits, foreign finalizer edits, handler & daemon completions, genuine or injected 422, restarts, foreign writes "
-              "between any two requests of a cycle): foreign_untouched, order_preserved, block/allow idempotence, allow_after_block, "
-              "patch_is_fn_of_tested, foreign_untouched_lts, decision_spec, released_eventually, add_on_match, remove_on_mismatch, "
-              "add_remove_on_match, conflict_carries_nothing, cycle_decides_anew (after repair 1c8f3dd a 422 never leads to a stale "
-              "release/add: conflict_on_release_redecided, conflict_on_add_redecided) are full theorems. never_early is still FALSE "
-              "of the code in one shape (open finding F5b): proved are never_early_partial / never_early_inv_partial under exactly "
-              "that guard (when a removal is queued, no foreign write between the decision and the cycle's own merge patch; any number "
-              "of 422 allowed), the negation never_early_fails and the witness stale_release_via_merge_witness, replayed on the real "
-              "operator every run.")
+              "label edits, foreign finalizer edits, handler & daemon completions, re-scheduling of purged deletion handlers, genuine or "
+              "injected 422, restarts, foreign writes between any two requests of a cycle). Full theorems: foreign_untouched, "
+              "order_preserved, block/allow specs and idempotence, allow_after_block, patch_is_fn_of_tested, foreign_untouched_lts, "
+              "decision_spec, conflict_carries_nothing, cycle_decides_anew, add_on_match, remove_on_mismatch, add_remove_on_match, "
+              "released_in_one_quiet_cycle, and — on the wake-up layer (events consumed one per cycle, early exits only while another "
+              "event is queued, sleep-then-touch after delays iff the patch was empty or changed nothing; wakeup_layer_refines) — no_lost_wakeup and released_under_fairness "
+              "(from every reachable waiting & settled state at most five enabled operator steps release the object) under the guard "
+              "'no 422 injected without a concurrent write' (necessary: injected_422_loses_wakeup; no-op patches are free since "
+              "repair 7224f57, the former F7 history is a regression example). never_early is FALSE of the code in one shape (open finding F5b): proved are "
+              "never_early_partial / never_early_inv_partial under exactly that guard (removal queued ⇒ no foreign write between the "
+              "decision and the cycle's own merge patch; any number of 422), the negation never_early_fails and "
+              "stale_release_via_merge_witness. `required` is evaluated after the step and is not sticky (Env.delReset). Both "
+              "witnesses are replayed on the real operator every run.")
 THEOREMS = [("Kopf.Props.C06", "Kopf.C06." + n) for n in [
     "foreign_untouched", "order_preserved", "block_spec", "allow_spec", "block_idempotent", "allow_idempotent",
     "allow_after_block", "patch_is_fn_of_tested", "foreign_untouched_lts", "decision_spec",
     "never_early_partial", "never_early_inv_partial", "conflict_carries_nothing", "cycle_decides_anew",
     "stale_release_via_merge_witness", "never_early_fails",
-    "released_in_one_quiet_cycle", "wakeup_layer_refines", "no_lost_wakeup", "released_under_fairness", "lost_wakeup_witness",
+    "released_in_one_quiet_cycle", "wakeup_layer_refines", "no_lost_wakeup", "released_under_fairness", "injected_422_loses_wakeup",
     "add_on_match", "remove_on_mismatch", "add_remove_on_match"]]
 TIE_THEOREMS = [("Kopf.Tie.C06", "Kopf.C06.Tie." + n) for n in [
     "mustBlock_eq", "add_eq", "remove_eq", "early_eq", "release_eq", "effects_eq", "decision_eq", "carry_eq"]]
 RULE = ("D: finalizer lists over an alphabet with the own name 0-3 times, look-alikes, unicode, empty/absent containers, and fn "
         "sequences of length 0-4 through the real functions and Patch.as_json_patch; S: seeded scenarios with 0-2 deletion handlers "
         "(optional/mandatory, label filters, outcome scripts, retries), daemons (obey/cancel/ignore/exit, cancellation timeouts), "
-        "timers, non-requiring handlers, event handlers with results (merge content), label/spec edits, foreign finalizer edits, "
-        "strip of the own finalizer, deletion at random moments, stops/kills/restarts, slips (a foreign write right before the "
-        "operator's n-th PATCH) and injected 422; one case = one processing cycle; distinct & non-trivial = distinct abstracted "
-        "(decision inputs, carried fns, patch outcome) tuples in which a fn was queued, carried or a requirement was in force")
+        "timers, non-requiring handlers, event handlers with constant results (no-op merge content), label/spec edits, foreign "
+        "finalizer edits, strip of the own finalizer, deletion at random moments, stops/kills/restarts, slips (a foreign write right "
+        "before the operator's n-th PATCH) and injected 422; one case = one processing cycle (decision incl. the delays flag, "
+        "JSON-patch outcome, carried fns, sleep-then-touch after delays); distinct & non-trivial = distinct abstracted tuples in "
+        "which a fn was queued, carried or a requirement was in force")
 TRUSTED = ["harness/sim (virtual-time loop, fake API server incl. JSON-patch `test` → 422 and deletion by last-finalizer removal, "
            "scripted handlers/daemons, attribute-level observation of kopf)",
            "pyextract atom vocabulary for the finalizer block of processing.process_resource_causes",
@@ -62,7 +67,13 @@ TRUSTED = ["harness/sim (virtual-time loop, fake API server incl. JSON-patch `te
 ASSUMPTIONS = ["handler filters in generated scenarios are label filters only (field/when filters are C15's subject)",
                "foreign actors never add or remove the framework's own finalizer except through the explicit strip op, which the "
                "oracle attributes to them",
-               "a timer counts as live only while one of its invocations runs (its idle task is not observable in the log)"]
+               "a timer counts as live only while one of its invocations runs (its idle task is not observable in the log)",
+               "the LTS's `decide` reads the server object and the operator's memory at one instant: a stale event body is covered "
+               "(decide earlier, foreign edits afterwards), a daemon exit between the event and its processing is ordered before `decide`",
+               "'finished' in the oracle = the latest handling pass before the instant left the handler finished (record kept, or "
+               "final outcome in that pass); a purged-and-reinvoked handler counts as unfinished again",
+               "liveness: the oracle judges only histories whose last 25 virtual seconds are quiet and in which no 422 was injected; "
+               "fairness itself (enabled operator steps are eventually taken by asyncio) is not a theorem"]
 
 OWN = "kopf.zalando.org/KopfFinalizerMarker"
 LAT = 1.0 / 64
@@ -594,12 +605,41 @@ def _main_requests(view: View, cyc: dict) -> tuple[dict | None, dict | None]:
     return merge, js
 
 
+def _touch_only(req: dict) -> bool:
+    p = req.get("payload") or {}
+    ann = ((p.get("metadata") or {}).get("annotations") or {}) if isinstance(p, dict) else {}
+    return isinstance(p, dict) and set(p) == {"metadata"} and set(p["metadata"]) == {"annotations"} and bool(ann) \
+        and all(k.endswith("touch-dummy") and v is not None for k, v in ann.items())
+
+
+def _changed(cyc: dict, ab: dict) -> bool:
+    """Did the cycle's patch change the object, as far as the operator can tell? A non-empty patch whose last
+    response carries a version other than the one the cycle worked on — or carries none (422/404), or releases the object."""
+    merge, js = ab["merge"], ab["json"]
+    if merge is None and js is None and not ab["fns"]:
+        return False
+    body = None
+    for r in (merge, js):
+        if r is not None and r.get("response") == 200 and isinstance(r.get("result"), dict):
+            body = r["result"]
+        elif r is not None and r is merge:
+            return True          # the merge patch failed: patch_obj gives up, no version
+    if body is None:
+        return True
+    m = _meta(body)
+    if m.get("deletionTimestamp") and not m.get("finalizers"):
+        return True
+    return m.get("resourceVersion") != cyc.get("rv")
+
+
 def _slept(view: View, cyc: dict, ab: dict) -> bool | None:
     """Did `application.apply` sleep (and/or touch) after its patching? None = not observable (cut short, or the
     sleep was interrupted at once by an event that was already queued)."""
     ap = cyc["apply"]
     if "t_end" not in ap or cyc.get("error"):
         return None
+    if any(e[1] in ("stop", "kill") and ap["t"] - 1e-9 <= e[0] <= cyc.get("t1", float("inf")) + 1e-9 for e in view.sc.get("timeline", [])):
+        return None   # the operator was being stopped while the cycle slept
     n_main = (1 if ab["merge"] is not None else 0) + (1 if ab["json"] is not None else 0)
     rs = [r for r in _cycle_requests(view, cyc) if r["wall"] >= ap["t"] + n_main * LAT and "merge-patch" in (r.get("ctype") or "")]
     touched = any(_touch_only(r) for r in rs)
@@ -895,7 +935,7 @@ def run_scenarios(ctx: Ctx, scenarios: list[dict], names: list[str | None]) -> N
             # application.apply: with delays, the cycle ends in sleep-then-touch iff its patch was empty
             slept = _slept(view, cyc, ab)
             if cyc["apply"].get("delays") and slept is not None:
-                reqs.append(["C06.sleeps", True, bool(cyc["apply"]["patch"]) or ab["merge"] is not None, ab["fns"]])
+                reqs.append(["C06.sleeps", True, _changed(cyc, ab)])
                 impls.append(slept)
                 where.append({"scenario": sc, "cycle": cyc["i"], "what": "sleep"})
                 ctx.count("S.sleep_after_delays", slept)
